@@ -107,9 +107,12 @@ Definition set_los (f : frame) (a : Z) (l : bool) : frame :=
    value is a pointer to a value succeeds iff the pointer is still the very
    same one, i.e. iff nothing was written since it was loaded (every write
    installs nil, expunged or a freshly allocated pointer). nil and expunged
-   are constants and compare by value. *)
-Record inst := Inst { i_st : mstate; i_mu : option nat; i_ver : gmap nat nat }.
-Definition empty_inst : inst := Inst empty_mstate None ∅.
+   are constants and compare by value.
+   i_zs says that the values of this Map are ZERO-SIZE (sync2.Set is a
+   Map[T, struct{}]); see cas_ok. It never changes. *)
+Record inst := Inst { i_st : mstate; i_mu : option nat; i_ver : gmap nat nat; i_zs : bool }.
+Definition empty_inst_z (zs : bool) : inst := Inst empty_mstate None ∅ zs.
+Definition empty_inst : inst := empty_inst_z false.
 
 Inductive umutex := UFree | ULocked | UReaders (n : nat).   (* sync.Mutex / sync.RWMutex, trusted abstract machine *)
 
@@ -136,22 +139,22 @@ Inductive outcome :=
 | Return (r : res)                     (* the frame's call returns r *)
 | Callback (f : frame) (k v : Z).      (* Range passes (k,v) to its callback; f is the Range frame after the load *)
 
-Definition with_st (i : inst) (s : mstate) : inst := Inst s (i_mu i) (i_ver i).
+Definition with_st (i : inst) (s : mstate) : inst := Inst s (i_mu i) (i_ver i) (i_zs i).
 Definition ent (i : inst) (e : nat) : ptr := get_ent (i_st i) e.
 Definition ver (i : inst) (e : nat) : nat := default O (i_ver i !! e).
 Definition put_ent (i : inst) (e : nat) (p : ptr) : inst :=
-  Inst (set_ent (i_st i) e p) (i_mu i) (<[e := S (ver i e)]> (i_ver i)).
+  Inst (set_ent (i_st i) e p) (i_mu i) (<[e := S (ver i e)]> (i_ver i)) (i_zs i).
 (* does CompareAndSwapPointer(&e.p, f_p, _) succeed?
-   Convention: the value 0 stands for a ZERO-SIZE value (sync2.Set stores
-   struct{}{}): Go gives every zero-size object the same address
-   (runtime.zerobase), so pointers to such values are all identical and a
+   In a Map whose values are ZERO-SIZE (i_zs = true: sync2.Set stores
+   struct{}{}, modelled by the value 0) Go gives every value the same address
+   (runtime.zerobase), so pointers to values are all identical and a
    compare-and-swap from one of them succeeds whenever the entry currently
-   holds a value, even if it was deleted and re-added in between. For every
-   other value the pointer identity (write counter) decides. The harnesses use
-   0 only for the set's unit value. *)
+   holds a value, even if it was deleted and re-added in between. In every
+   other Map (i_zs = false, e.g. Map[int,int], also when it stores the int 0)
+   the pointer identity (write counter) decides. *)
 Definition cas_ok (i : inst) (e : nat) (f : frame) : bool :=
   match f_p f with
-  | PVal v => bool_decide (ent i e = f_p f) && ((v =? 0) || Nat.eqb (ver i e) (f_pver f))
+  | PVal v => bool_decide (ent i e = f_p f) && ((i_zs i && (v =? 0)) || Nat.eqb (ver i e) (f_pver f))
   | p => bool_decide (ent i e = p)
   end.
 Definition st_with_misses (s : mstate) (m : Z) : mstate :=
@@ -243,8 +246,8 @@ Definition step_frame (t : nat) (i : inst) (f : frame) (choice : Z) : option (re
   let key := key_of (f_call f) in
   let value := val_of (f_call f) in
   let lock (next : label) :=
-    match i_mu i with None => Some (Ok (Inst s (Some t) (i_ver i), Continue (set_pc f next))) | Some _ => None end in
-  let unlock (o : outcome) := Some (Ok (Inst s None (i_ver i), o)) in
+    match i_mu i with None => Some (Ok (Inst s (Some t) (i_ver i) (i_zs i), Continue (set_pc f next))) | Some _ => None end in
+  let unlock (o : outcome) := Some (Ok (Inst s None (i_ver i) (i_zs i), o)) in
   match f_pc f with
   (* ---------------- Load ---------------- *)
   | Load_read1 =>
@@ -644,6 +647,9 @@ Definition step (c : config) (t : nat) (choice : Z) : option config :=
 
 Definition init_config (ninst : nat) (progs : list (list call)) : config :=
   Config (repeat empty_inst ninst) ∅ (map (fun p => next_call (Thread p [] [] false)) progs) [] false.
+(* the same with the kind of every instance given: zs_j = true iff instance j is a Set (zero-size values) *)
+Definition init_config_z (zs : list bool) (progs : list (list call)) : config :=
+  Config (map empty_inst_z zs) ∅ (map (fun p => next_call (Thread p [] [] false)) progs) [] false.
 
 (* a schedule is a list of (thread, choice); entries that are not enabled are skipped *)
 Fixpoint run_schedule (c : config) (sched : list (nat * Z)) : config :=
